@@ -740,103 +740,3 @@ func operandName(a ssa.Value, node ssa.Value) string {
 	walk(a, 0)
 	return name
 }
-
-// decideByNilness evaluates fn for one assignment of nil/non-nil to the values recognised by isNil (a decision table over
-// the function's nil tests; boolean connectives, negation, comparison of booleans and phis are interpreted). It reports
-// whether the function returns a non-nil first result, and whether the evaluation could be carried through.
-func decideByNilness(fn *ssa.Function, isNil func(ssa.Value) (val, known bool)) (isErr, decided bool) {
-	var prev *ssa.BasicBlock
-	phiVal := map[*ssa.Phi]bool{} // boolean phis, resolved on entry to their block against the edge taken
-	var eval func(v ssa.Value, d int) (bool, bool)
-	enter := func(b *ssa.BasicBlock) {
-		for _, in := range b.Instrs {
-			ph, ok := in.(*ssa.Phi)
-			if !ok {
-				break
-			}
-			for i, p := range b.Preds {
-				if p == prev {
-					if r, ok := eval(ph.Edges[i], 0); ok {
-						phiVal[ph] = r
-					} else {
-						delete(phiVal, ph)
-					}
-				}
-			}
-		}
-	}
-	eval = func(v ssa.Value, d int) (bool, bool) {
-		if d > 20 {
-			return false, false
-		}
-		switch x := v.(type) {
-		case *ssa.Const:
-			if x.Value != nil && x.Value.Kind() == constant.Bool {
-				return constant.BoolVal(x.Value), true
-			}
-		case *ssa.UnOp:
-			if x.Op == token.NOT {
-				r, ok := eval(x.X, d+1)
-				return !r, ok
-			}
-		case *ssa.Phi:
-			r, ok := phiVal[x]
-			return r, ok
-		case *ssa.BinOp:
-			if x.Op != token.EQL && x.Op != token.NEQ {
-				return false, false
-			}
-			if t, nonNilOnTrue, ok := nilTest(x); ok {
-				n, known := isNil(t)
-				if !known {
-					return false, false
-				}
-				return n != nonNilOnTrue, true
-			}
-			a, ok1 := eval(x.X, d+1)
-			b, ok2 := eval(x.Y, d+1)
-			if ok1 && ok2 {
-				return (a == b) == (x.Op == token.EQL), true
-			}
-		}
-		return false, false
-	}
-	b := fn.Blocks[0]
-	for steps := 0; steps < 200; steps++ {
-		switch t := b.Instrs[len(b.Instrs)-1].(type) {
-		case *ssa.If:
-			// phis in this block were resolved against prev; evaluate the condition before moving on
-			c, ok := eval(t.Cond, 0)
-			if !ok {
-				return false, false
-			}
-			prev = b
-			if c {
-				b = b.Succs[0]
-			} else {
-				b = b.Succs[1]
-			}
-			enter(b)
-		case *ssa.Jump:
-			prev, b = b, b.Succs[0]
-			enter(b)
-		case *ssa.Return:
-			rv := retVals(t)
-			if len(rv) == 0 {
-				return false, false
-			}
-			if ph, ok := rv[0].(*ssa.Phi); ok {
-				for i, p := range ph.Block().Preds {
-					if p == prev {
-						return !isNilConst(ph.Edges[i]), true
-					}
-				}
-				return false, false
-			}
-			return !isNilConst(rv[0]), true
-		default:
-			return false, false
-		}
-	}
-	return false, false
-}
